@@ -405,8 +405,19 @@ package logqlengine
 //@   capture e = call(i.iter.Err, 0)
 //@   ensures[forwards-source-error] e_called && ret0 == e_r0
 
+//@ func groupEntries$1
+//@   ensures[by-timestamp] ret0 == cmp.Compare(a.T, b.T)
+
 //@ func groupEntries
 //@   capture ie = call(iter.Err, 0)
+//@   capture nx = call(iter.Next, 0)
+//@   capture sk = call(e.set.String, 0)
+//@   capture la = call(e.set.AsLokiAPI, 0)
+//@   capture ss = call(slices.SortFunc, 0)
+//@   loop 0 body_ensures[entry-goes-to-the-stream-of-its-labels] nx_r0 && sk_called && has(streams, sk_r0) && len(streams[sk_r0].Values) == head(len(streams[sk_r0].Values)) + 1
+//@   loop 0 body_ensures[entry-keeps-timestamp-and-line] streams[sk_r0].Values[len(streams[sk_r0].Values)-1].T == uint64(e.ts) && streams[sk_r0].Values[len(streams[sk_r0].Values)-1].V == e.line
+//@   loop 0 body_ensures[stream-created-with-the-entry-labels] la_called == !head(has(streams, sk_r0))
+//@   loop 1 body_ensures[every-stream-sorted-by-time] ss_called && same(ss_a0, stream.Values)
 //@   modifies *
 //@   ensures[source-error-surfaces] ie_called && ie_r0 != nil ==> ret1 != nil
 //@   ensures[source-kept] same(iter.iter, old(iter.iter))
@@ -460,9 +471,6 @@ package logqlengine
 //@ func (EvalParams).IsInstant
 //@   inline
 //@ func (*LabelSet).AsLokiAPI
-//@   trusted
-//@   modifies nothing
-//@ func (*LabelSet).String
 //@   trusted
 //@   modifies nothing
 
@@ -542,3 +550,21 @@ package logqlengine
 //@ func (*SupportedOps).Add
 //@   modifies *caps
 //@   loop 0 modifies *caps
+
+// ---- C08: log results are partitioned into ordered streams
+
+//@ scope label_set.go
+//@ ghost func builderContent(b *strings.Builder) string
+
+// The stream key renders the labels in sorted key order, so it is a function of the label set.
+//@ func (*LabelSet).String
+//@   modifies nothing
+//@   capture mk = call(maps.Keys, 0)
+//@   capture so = call(slices.Sort, 0)
+//@   capture w0 = call(sb.WriteString, 0)
+//@   capture w1 = call(sb.WriteString, 1)
+//@   ensures[keys-of-this-set-sorted-before-rendering] mk_called && same(mk_a0, l.labels) && so_called && same(so_a0, mk_r0)
+//@   loop 0 modifies sb.*
+//@   loop 0 invariant rangeindex+1 <= len(keys) && i == rangeindex+1
+//@   loop 0 invariant forall(0, len(keys)-1, func(j int) bool { return keys[j] <= keys[j+1] })
+//@   loop 0 body_ensures[renders-pairs-in-that-order] same(k, keys[rangeindex]) && w0_called && w0_a0 == string(k) && w1_called && w1_a0 == strconv.Quote(l.labels[k].AsString())
